@@ -17,6 +17,9 @@ for name in names:
     d = os.path.join(here, "seeded", name)
     meta = json.load(open(os.path.join(d, "meta.json")))
     prop = meta["property"]
+    if meta.get("neutralised_by") and not args:
+        print(f"skipping {name}: no longer breaks the property since /repo {meta['neutralised_by']}", flush=True)
+        continue
     patch = os.path.join(d, "patch.diff")
     t0 = time.time()
     if in_repo:
